@@ -191,6 +191,7 @@ def run(ctx):
     scoping(ctx, "R04-d")
     name_scopes(ctx, "R04-g")
     token_readers_guarded(ctx, "R04-h")
+    every_attribute_contributes(ctx, "R04-i")
 
 
 def spelling(ctx, rid):
@@ -662,3 +663,63 @@ def token_readers_guarded(ctx, rid):
                         "false (%s): a macro named by rustfmt::skip::macros / skip_macro_invocations is rewritten"
                         % (name, "; ".join(why[:4])), ["%s:%d" % (f.file, l) for _, l in rd][:3])
     r.floor(rid, n, 3, "non-excepted readers of MacCall.args.tokens")
+
+
+def every_attribute_contributes(ctx, rid):
+    """R04-i: the names of *all* rustfmt::skip::macros / ::attributes attributes of a node are collected"""
+    p, r = ctx.p, ctx.r
+    r.rule(rid, "skip::get_skip_names: the attribute slice is traversed completely — no short-circuiting or positional adaptor "
+                "(find, find_map, position, nth, take, first, last, get, next outside a loop) stands between `attrs` and the "
+                "collected names; a second `#[rustfmt::skip::macros(..)]` on the same node names macros just as the first does")
+    from common import natural_loops
+    f = p.named("get_skip_names", within="rustfmt_nightly::skip")
+    if f is None:
+        r.undecidable(rid, "skip::get_skip_names not found")
+        return
+    SHORT = ("Iterator::find", "Iterator::find_map", "Iterator::position", "Iterator::rposition", "Iterator::nth", "Iterator::take",
+             "Iterator::take_while", "Iterator::skip", "Iterator::step_by", "Iterator::last", "Iterator::max", "Iterator::min",
+             "Iterator::next", "Iterator::next_back", "Iterator::peekable", "Iterator::any", "Iterator::all",
+             "::first", "::last", "::get", "::split_first", "::split_last")
+    attrs_args = [i for i in range(1, f.argc + 1) if "Attribute" in f.locals[i]]
+    if len(attrs_args) != 1:
+        r.undecidable(rid, "get_skip_names: cannot identify the attribute slice parameter")
+        return
+    a = attrs_args[0]
+    n_iter = 0
+    bad = []
+    bodies = [f] + p.closures_of(f)
+    for g in bodies:
+        in_loop = set()
+        for h, body in natural_loops(g):
+            in_loop |= body
+        for c in g.calls():
+            nm = c.declared or c.name
+            if not c.args or c.args[0][0] == "k":
+                continue
+            if g is f:
+                d = f.derived_from(c.args[0][1][0])
+                from_attrs = a in d["locals"] or a in d["args"]
+            else:
+                from_attrs = False
+            if not from_attrs:
+                continue
+            if nm.endswith("IntoIterator::into_iter") or nm.endswith("::iter"):
+                n_iter += 1
+            for sname in SHORT:
+                if nm.endswith(sname) or c.name.endswith(sname):
+                    if sname == "Iterator::next" and c.bb in in_loop:
+                        continue        # the desugaring of `for attr in attrs`
+                    # adaptors applied to the *inner* list of one attribute (meta_item_list) are not on the attrs iterator:
+                    inner = any(x.name.endswith("meta_item_list") for x in f.derived_from(c.args[0][1][0])["calls"])
+                    if inner:
+                        continue
+                    bad.append((sname.rsplit("::", 1)[-1], c))
+    r.instance(rid, "get_skip_names traverses the whole attribute slice", "ok" if not bad and n_iter else "violation",
+               "%s:%d" % (f.file, f.line), "%d traversals" % n_iter)
+    for nm, c in bad:
+        r.violation(rid, "get_skip_names stops at / picks one attribute (%s)" % nm,
+                    "the attribute iterator goes through `%s`: only one of several `#[rustfmt::skip::macros(..)]` / "
+                    "`#[rustfmt::skip::attributes(..)]` attributes on a node contributes its names, the macros and attributes "
+                    "named by the others are reformatted" % nm, [c.loc()])
+    if not n_iter and not bad:
+        r.undecidable(rid, "get_skip_names: no traversal of the attribute slice found")
